@@ -119,6 +119,7 @@ def register_function_names(w):
     FP = "FnPlugin"
     w.fields[(FP, "unique")] = Bool
     w.fields[(FP, "namespace")] = Opt(Str)
+    w.fields[(FP, "name")] = Str
     w.repo_classes = dict(getattr(w, "repo_classes", {}))
     w.repo_classes[FP] = (MPS, "FunctionPlugin")
     KEY = Tup(Str, Str, Str)
